@@ -677,3 +677,27 @@ pub fn run(args: &Args) -> i32 {
 	ev.assume("in the band where the expiry leaves a non-empty claim window but less than the advertised minimum delta, either answer satisfies the property");
 	mc_common::findings::conclude("C04", &violations, &mut ev)
 }
+
+/// Re-runs one case named by its Debug form (as written in a violation's replay file).
+pub fn replay_case(case: &str) -> i32 {
+	for tier in [Tier::Quick, Tier::Thorough] {
+		if let Some(c) = cases(tier).into_iter().find(|c| format!("{:?}", c) == case) {
+			let r = par::guarded(|| run_case(&c));
+			return match r {
+				Ok(Ok(o)) => {
+					println!("case {:?}: held ({})", c, o.label);
+					0
+				},
+				Ok(Err((oracle, detail))) => {
+					println!("case {:?}: {} {}", c, oracle, detail);
+					1
+				},
+				Err(p) => {
+					println!("case {:?}: panic {}", c, p);
+					1
+				},
+			};
+		}
+	}
+	mc_common::cli::die("unknown case in replay file")
+}
